@@ -26,7 +26,7 @@ LEVEL = "exploration"
 
 FORMS = ["conc", "next", "seq", "var", "value", "push", "pushprop", "slice", "elem", "port", "ret", "ifexp", "linit_sig", "linit_var",
          "view", "view_seq"]
-LIT_FORMS = ["conc", "seq", "var", "push", "init", "slice", "port", "ret", "ifexp", "view"]
+LIT_FORMS = ["conc", "seq", "var", "push", "init", "slice", "port", "ret", "ifexp", "view", "merge2", "ret2", "pdefault", "linit_var", "ctor"]
 
 
 def types(maxw):
@@ -151,6 +151,10 @@ def render(s, t, form):
     if S is None:
         L.append(f"    src = Port.input({tsrc(s)})")
     L.append(f"    alt = Port.input({T})")
+    if form in ("merge2", "ret2"):
+        L.append(f"    nar = Port.input(Unsigned[{wt - 1}])")
+    if form == "pdefault":
+        L.append(f"    tgtd = Port.output({T}, default={src})")
     dflt = ", default=Null" if form in ("push", "pushprop") else ""
     view = None
     if form in ("view", "view_seq"):
@@ -202,6 +206,16 @@ def render(s, t, form):
               con, "        def logic():", "            self.tgt <<= f()"]
     elif form == "ifexp":
         L += [con, "        def logic():", f"            self.tgt <<= {src} if self.c else self.alt"]
+    elif form == "merge2":
+        # the literal is the SECOND arm, the first arm is a strictly narrower Unsigned run-time value
+        L += [con, "        def logic():", f"            self.tgt <<= self.nar if self.c else {src}"]
+    elif form == "ret2":
+        L += ["        def f():", "            if self.c:", "                return self.nar", f"            return {src}",
+              con, "        def logic():", "            self.tgt <<= f()"]
+    elif form == "pdefault":
+        L += [seq, "        def proc():", "            if self.c:", "                self.tgtd <<= self.alt", con, "        def pub():", "            self.tgt <<= self.tgtd"]
+    elif form == "ctor":
+        L += [con, "        def logic():", f"            self.tgt <<= {T}({src})"]
     L.append("")
     return "\n".join(L)
 
@@ -215,6 +229,10 @@ def applicable(s, t, form):
         return s[0] in ("int", "Null", "Full", "True", "False")
     if form in ("view", "view_seq"):
         return is_vec(t)
+    if form in ("merge2", "ret2"):
+        return t[0] in ("Unsigned", "Signed") and t[1] >= 2
+    if form in ("pdefault", "ctor"):
+        return s[0] in ("int", "Null", "Full", "True", "False")
     if form in ("push", "pushprop") and t == ("bool",):
         return True
     return True
@@ -238,12 +256,16 @@ def analyse(s, t, form):
         out["problems"].append(("static-" + d.findings[0].rule, repr(d.findings[0])))
         return out
     wt = width(t)
-    clocked = form in ("seq", "var", "value", "push", "pushprop", "linit_sig", "linit_var", "view_seq")
+    clocked = form in ("seq", "var", "value", "push", "pushprop", "linit_sig", "linit_var", "view_seq", "pdefault")
     is_lit = s[0] in ("int", "Null", "Full", "True", "False")
     sim = d.sim(init=dict(clk=0, c=1))
     for raw in src_values(s):
         try:
             kv = {"c": 1, "alt": 0}
+            if form in ("merge2", "ret2"):
+                kv = {"c": 0, "alt": 0, "nar": 0}
+            if form == "pdefault":
+                kv = {"c": 0, "alt": 0}
             if not is_lit:
                 kv["src"] = raw
             sim.set_many(kv)
@@ -270,6 +292,13 @@ def analyse(s, t, form):
         if got != exp:
             out["problems"].append(("value", f"source {lit_src(s) if is_lit else raw}: target bits {got}, expected {exp}"))
             break
+        if form in ("merge2", "ret2"):
+            for a in range(1 << (wt - 1)):
+                sim.set_many({"c": 1, "nar": a})
+                g = sim.get("tgt")
+                if g != a:
+                    out["problems"].append(("value", f"merge with c=1: target {g}, expected nar={a}"))
+                    break
         if form in ("ret", "ifexp"):
             # other branch: alt must pass through unchanged
             for a in range(1 << wt):
